@@ -20,6 +20,13 @@ BLACK = ("enum", "cozy_chess_types::color::Color", "Black")
 
 
 def run(ctx):
+    if ctx.pid != "C14":
+        # included by another property's check: once per run is enough
+        key = ("c14", getattr(ctx, "rule_suffix", ""))
+        done = ctx.__dict__.setdefault("_groups_done", set())
+        if key in done:
+            return
+        done.add(key)
     ctx.explanation = __doc__
     f = ctx.facts("A")
     L = lift.Lifter(f)
